@@ -179,7 +179,7 @@ Print Assumptions C18_freshness_wall_clock_refuted.
 
 Theorem C18_backstep_monotonic_ok :
   let s := exec (xoracle demo_world) true (init_state (xinit demo_world)) (backstep_pre ++ backstep_quiet) in
-  snd (step (xoracle demo_world) true s (Convert false tt)) = Some (VInt (-18000)).
+  snd (step (xoracle demo_world) true s (Convert false noon)) = Some (VInt (-18000)).
 Proof. exact backstep_monotonic_ok. Qed.
 Print Assumptions C18_backstep_monotonic_ok.
 
@@ -192,9 +192,9 @@ Print Assumptions C18_hash_hypothesis_inhabited.
 
 Example C18_demo_history : forall mono,
   answers (xoracle demo_world) mono (init_state (xinit demo_world))
-    [SetTZ B"AAA-3"; Convert false tt; SetTZ B"BBB+5"; Advance 400000000; Convert false tt; Spawn; Convert true tt; Join;
-     Advance 700000000; Convert false tt; SetTZ B":/tmp/z"; Advance 1000000000; Convert false tt; UnsetTZ;
-     Advance 999999999; Convert false tt; Advance 1; Convert false tt] =
+    [SetTZ B"AAA-3"; Convert false noon; SetTZ B"BBB+5"; Advance 400000000; Convert false noon; Spawn; Convert true noon; Join;
+     Advance 700000000; Convert false noon; SetTZ B":/tmp/z"; Advance 1000000000; Convert false noon; UnsetTZ;
+     Advance 999999999; Convert false noon; Advance 1; Convert false noon] =
   [VInt 10800; VInt 10800; VTup [VInt (-18000)]; VInt (-18000); VInt 3600; VInt 3600; VInt 0].
 Proof. exact demo_answers. Qed.
 Print Assumptions C18_demo_history.
